@@ -41,6 +41,7 @@ def ob_kernel(chk, ir, N):
         H = HandlerRun(ir, loop_bound=N + 3, budget_s=120); ex = H.ex
         dest, _bytes = bytes_string('login_destination', L)      # every string of exactly L arbitrary bytes
         H.stub('(*net/http.Request).FormValue', lambda ex_, s, a, ins, dest=dest: dest)
+        ex.stubs.pop('(net/url.Values).Get', None)      # the real Get over the pinned form map (the sweep's one-term summary would bypass the L-byte input)
         H.add_hints(pin(r'^\*r\.Form\[', lambda ex_, s, tid, name, dest=dest: ex_.mkslice(s, [dest]) if tid is not None else NotImplemented), lens(r'^len\(\*r\.Form\[', [1]))
         st, state, w, r = H.mkstate()
         paths = ex.run(name, [r], st); allpaths += paths
@@ -152,6 +153,13 @@ def const_prefix(t):
     if z3.is_app(t) and t.decl().kind() == z3.Z3_OP_SEQ_CONCAT:
         c0 = t.children()[0]
         if z3.is_string_value(c0): return lib_unquote(c0), False
+    if z3.is_app(t) and t.decl().kind() == z3.Z3_OP_ITE:
+        # both alternatives of a conditional value: the longest constant prefix they share
+        (pa, wa), (pb, wb) = const_prefix(t.children()[1]), const_prefix(t.children()[2])
+        if pa is None or pb is None: return None, False
+        if wa and wb and pa == pb: return pa, True
+        import os.path
+        return os.path.commonprefix([pa, pb]), False
     return None, False
 
 
